@@ -303,6 +303,9 @@ func (h *holdCtx) Value(key interface{}) interface{} {
 type c11ByCase struct {
 	Kind   string `json:"bystander_kind"` // exec-source | exec-compiled | walk-shared-spec
 	Victim string `json:"victim"`         // cancelled | expired | tick | deadline
+	// Holders: how many never-cancelled executions are running (default 1); more than one are run with the
+	// processor count set to 2, i.e. more executions than processors
+	Holders int `json:"holders,omitempty"`
 }
 
 const loopSrc = `while (true) { _.ctx.Value("tick"); }
@@ -312,6 +315,11 @@ return _.bindings;`
 // same interpreter / compiled program / compiled spec whose context is cancelled or expires must stop
 // while the first is still running.  Progress is measured in the holder's ticks, not in time.
 func c11Bystander(cs c11ByCase) (out [][2]string) {
+	if cs.Holders > 1 {
+		// more executions at once than processors: the crowd is made by shrinking the processor count (an
+		// interpreter may size itself by it), not by starting hundreds of scripts
+		defer runtime.GOMAXPROCS(runtime.GOMAXPROCS(2))
+	}
 	interp := ecmascript.NewInterpreter()
 	var compiled interface{}
 	var spec *core.Spec
@@ -351,15 +359,39 @@ func c11Bystander(cs c11ByCase) (out [][2]string) {
 		return errText, pn, pm
 	}
 	before := goroutineIDs()
-	hb, hcancel := context.WithCancel(context.Background())
-	h := &holdCtx{Context: hb, cancel: hcancel, started: make(chan struct{})}
+	nh := cs.Holders
+	if nh < 1 {
+		nh = 1
+	}
+	var hs []*holdCtx
 	hdone := make(chan struct{})
-	go func() { defer close(hdone); run(h) }()
+	var hwg sync.WaitGroup
+	for i := 0; i < nh; i++ {
+		hb, hc := context.WithCancel(context.Background())
+		hx := &holdCtx{Context: hb, cancel: hc, started: make(chan struct{})}
+		hs = append(hs, hx)
+		hwg.Add(1)
+		go func() { defer hwg.Done(); run(hx) }()
+	}
+	go func() { hwg.Wait(); close(hdone) }()
+	h := hs[0]
+	hcancel := func() {
+		for _, hx := range hs {
+			hx.cancel()
+		}
+	}
 	select {
 	case <-h.started:
 	case <-time.After(60 * time.Second):
 		hcancel()
 		return [][2]string{{"harness-holder-did-not-start", "the holder execution made no tick within 60 s"}}
+	}
+	// a crowd of holders: give the others a moment to get going (how many do is not judged)
+	for _, hx := range hs[1:] {
+		select {
+		case <-hx.started:
+		case <-time.After(100 * time.Millisecond):
+		}
 	}
 	var vb context.Context
 	var vcancel context.CancelFunc
@@ -389,7 +421,12 @@ func c11Bystander(cs c11ByCase) (out [][2]string) {
 		// the holder gave up (or ended) first
 		<-vdone
 	}
-	gaveUp := atomic.LoadInt32(&h.GaveUp) == 1
+	gaveUp := false
+	for _, hx := range hs {
+		if atomic.LoadInt32(&hx.GaveUp) == 1 {
+			gaveUp = true
+		}
+	}
 	hcancel()
 	<-hdone
 	vcancel()
@@ -595,7 +632,7 @@ func C11(c *vh.Ctx) {
 	}
 	c.Bound("cancel_at_tick_max", K)
 	c.Bound("deadlines_ms", deadlines)
-	c.Rule("script shapes {while(true), counting for, unbounded recursion, array push, string concatenation, property read/write, nested calls in a loop, a loop in the toString of a thrown object, in a getter of the returned object, in the message getter of a thrown Error}, with and without a harness tick in the loop body, as action, as guard, and as action plus the guard of the branch that handles the action's failure x cancellation {context already cancelled, deadline already expired, cancel delivered at tick k for k=1..K (with and without a far deadline in the context's ancestry), real deadlines} x error routing {none, ActionErrorNode, ActionErrorBranches} x n in {1,2,4} concurrent executions with independent contexts; oracle: the walk returns (90 s horizon), the script makes no more than a (very large) number of ticks after its context is done, the result is the timeout error routed like any action error, and every goroutine started during the call is gone afterwards (10 s grace). Bystander family: while one execution keeps running under a context that is never cancelled, a second execution on the same interpreter (source text compiled by Exec itself, or one shared compiled program) or on the same compiled spec, whose context is already cancelled / already expired / cancelled at its second tick / expires after 5 ms, must stop while the first is still running (the first gives up after 10^7 ticks, which is then a violation). Exit-path family: executions that end by themselves on each of 18 exit paths (results of every kind, exceptions of every kind, a result or an emitted value whose getter throws, reference/syntax/type errors) through Exec (source, compiled) and Walk (action, guard), 1 or 3 in a row, under a context that stays alive (background, cancellable, far deadline): no goroutine started for them is alive afterwards (10 s grace) while the context lives, and ending the context afterwards is uneventful. 'Promptly' in milliseconds is not decided.")
+	c.Rule("script shapes {while(true), counting for, unbounded recursion, array push, string concatenation, property read/write, nested calls in a loop, a loop in the toString of a thrown object, in a getter of the returned object, in the message getter of a thrown Error}, with and without a harness tick in the loop body, as action, as guard, and as action plus the guard of the branch that handles the action's failure x cancellation {context already cancelled, deadline already expired, cancel delivered at tick k for k=1..K (with and without a far deadline in the context's ancestry), real deadlines} x error routing {none, ActionErrorNode, ActionErrorBranches} x n in {1,2,4} concurrent executions with independent contexts; oracle: the walk returns (90 s horizon), the script makes no more than a (very large) number of ticks after its context is done, the result is the timeout error routed like any action error, and every goroutine started during the call is gone afterwards (10 s grace). Bystander family: while one execution keeps running under a context that is never cancelled, a second execution on the same interpreter (source text compiled by Exec itself, or one shared compiled program) or on the same compiled spec, whose context is already cancelled / already expired / cancelled at its second tick / expires after 5 ms, must stop while the first is still running (the first gives up after 10^7 ticks, which is then a violation); the same with five never-cancelled executions on two processors (more executions than processors). Exit-path family: executions that end by themselves on each of 18 exit paths (results of every kind, exceptions of every kind, a result or an emitted value whose getter throws, reference/syntax/type errors) through Exec (source, compiled) and Walk (action, guard), 1 or 3 in a row, under a context that stays alive (background, cancellable, far deadline): no goroutine started for them is alive afterwards (10 s grace) while the context lives, and ending the context afterwards is uneventful. 'Promptly' in milliseconds is not decided.")
 	var idx uint64
 	for _, exit := range c11ExitOrder {
 		for _, via := range []string{"exec-source", "exec-compiled", "walk-action", "walk-guard"} {
@@ -614,6 +651,10 @@ func C11(c *vh.Ctx) {
 			idx++
 			if c.Mine(idx) && !c.Expired() {
 				by(c11ByCase{Kind: kind, Victim: victim})
+			}
+			idx++
+			if c.Mine(idx) && !c.Expired() {
+				by(c11ByCase{Kind: kind, Victim: victim, Holders: 5})
 			}
 		}
 	}
